@@ -150,6 +150,46 @@ def clamp_index(i, n, default):
                  z3.If(ie > n, n, ie))
 
 
+def decide(path, c):
+    """True / False when the path condition decides c, else None."""
+    c = z3.simplify(c)
+    if z3.is_true(c):
+        return True
+    if z3.is_false(c):
+        return False
+    if path is not None and not path.binder_depth:
+        if path.implied(c):
+            return True
+        if path.implied(z3.Not(c)):
+            return False
+    return None
+
+
+def ctx_if(path, c, a, b):
+    """If(c, a, b), resolved with the path condition where it decides c."""
+    d = decide(path, c)
+    if d is True:
+        return a
+    if d is False:
+        return b
+    return z3.If(c, a, b)
+
+
+def smart_clamp(interp, i, n, default):
+    """clamp_index with the path condition used to drop decided branches
+    (keeps index terms small; purely an optimisation, same value)."""
+    if i is None:
+        return default
+    p = interp.path
+    ie = z3.simplify(zint(i))
+    d = decide(p, ie < 0)
+    if d is True:
+        return z3.simplify(ctx_if(p, n + ie < 0, z3.IntVal(0), n + ie))
+    if d is False:
+        return z3.simplify(ctx_if(p, ie > n, n, ie))
+    return z3.simplify(clamp_index(i, n, default))
+
+
 def bytes_slice(interp, b, sl):
     if sl.step is not None and sl.step != 1:
         raise Unsupported('bytes slice with step')
@@ -158,9 +198,9 @@ def bytes_slice(interp, b, sl):
         return b[sl]
     b = as_sbytes(b)
     n = b.zlen()
-    lo = z3.simplify(clamp_index(sl.start, n, z3.IntVal(0)))
-    hi = z3.simplify(clamp_index(sl.stop, n, n))
-    ln = z3.simplify(z3.If(hi > lo, hi - lo, z3.IntVal(0)))
+    lo = smart_clamp(interp, sl.start, n, z3.IntVal(0))
+    hi = smart_clamp(interp, sl.stop, n, n)
+    ln = z3.simplify(ctx_if(interp.path, hi > lo, hi - lo, z3.IntVal(0)))
     at0 = b.at
     if z3.is_int_value(lo) and lo.as_long() == 0:
         r = SBytes(at0, ln)
@@ -717,6 +757,13 @@ def contains(interp, container, x):
     if isinstance(container, (tuple, list, PySet)):
         if isinstance(container, PySet) and not is_symbolic(x):
             return x in container
+        if isinstance(x, (int, SInt, SBool)) and all(
+                isinstance(y, (int, SInt, SBool)) for y in container):
+            # integer membership: no side effects, no need to fork
+            r = False
+            for y in container:
+                r = bool_or(r, py_eq(interp, x, y))
+            return r
         for y in container:
             if interp.truth(py_eq(interp, x, y)):
                 return True
